@@ -4,7 +4,7 @@
 use super::*;
 use crate::dev::verif_env::*;
 use crate::meta::verif_header::{any_geo, info_of, mk_info, Geo};
-use crate::meta::{RefBlock, RefTableEntry, Table};
+use crate::meta::{RefBlock, RefTableEntry, Table, TableEntry};
 use crate::verif_spec as spec;
 
 fn fmt_stub2(_a: core::fmt::Arguments<'_>) -> String {
@@ -315,3 +315,139 @@ alloc_step!(c08_alloc_step_o4_allcb, 4, 9, 21, 7);
 // @funcs Qcow2Dev::free_clusters (whole body)
 // @stub alloc::fmt::format -> String::new()
 free_step!(c08_free_step_o4_allcb, 4, 9, 21, 4);
+
+macro_rules! free_across {
+    ($name:ident, $d:expr, $count:expr, $fail:expr) => {
+        #[kani::proof]
+        #[kani::unwind(3)]
+        #[kani::stub(std::fmt::format, fmt_stub2)]
+        fn $name() {
+            let order: u8 = 4;
+            let cb: u32 = 16;
+            let info = mk_info(cb, order as u32, 1u64 << 40, 9, Some((10, 2048)), Some((9, 1024)), false, false, false);
+            let mut env = KEnv::new(info);
+            let entries = (SLICE_BYTES * 8) >> order; // 256
+            let (rb_a, before_a) = any_slice(order);
+            // second slice: arbitrary counters in its first 4 entries
+            let mut rb_b = RefBlock::new(order, SLICE_BYTES, None);
+            let init_b: [u8; 8] = kani::any();
+            unsafe { core::ptr::copy_nonoverlapping(init_b.as_ptr(), rb_b.as_mut_ptr(), 8) };
+            let cnt_b = |blk: &RefBlock, j: usize| -> u64 { blk.get(j).into_plain() };
+            let b_before = [cnt_b(&rb_b, 0), cnt_b(&rb_b, 1), cnt_b(&rb_b, 2), cnt_b(&rb_b, 3)];
+            env.rb_slice = Some(KHandle::new(rb_a));
+            env.rb_slice2 = Some(KHandle::new(rb_b));
+            env.rt_entry = RefTableEntry(kani::any());
+            let hint: u64 = kani::any();
+            env.free_cluster_offset.store(hint, Ordering::Relaxed);
+            let fail: bool = $fail;
+            env.fail_get_rb.set(fail);
+            let cs = 1u64 << cb;
+            let span = (entries as u64) * cs; // host bytes one slice describes
+            let a_start = 5 * span;
+            env.rb_key2 = HostCluster(a_start + span).rb_slice_key(&env.info);
+            assert!(env.rb_key2 == HostCluster(a_start).rb_slice_key(&env.info) + 1);
+            let d: usize = $d;
+            let count: usize = $count;
+            let start = entries - d;
+            let host = a_start + (start as u64) * cs;
+            // the caller holds a reference to every cluster of the run (written out: the harness
+            // itself must not need a larger unwind bound than the code under test)
+            let held = |i: usize| -> bool {
+                if i >= count {
+                    true
+                } else if i < d {
+                    rc(&before_a, order, start + i) >= 1
+                } else {
+                    b_before[i - d] >= 1
+                }
+            };
+            kani::assume(held(0) && held(1) && held(2));
+
+            let r = env.seg_a0(host, count);
+
+            let ha = env.rb_slice.as_ref().unwrap();
+            let hb = env.rb_slice2.as_ref().unwrap();
+            let after_a = snap_of(&ha.value().kwrite());
+            let j: usize = kani::any();
+            kani::assume(j >= entries - 9 && j < entries);
+            let jb: usize = kani::any();
+            kani::assume(jb < 9);
+            let a_b = rc(&before_a, order, j);
+            let a_a = rc(&after_a, order, j);
+            let b_a = cnt_b(&hb.value().kwrite(), jb);
+            let b_b = if jb < 4 { b_before[jb] } else { 0 };
+            if fail {
+                // nothing can be loaded: no counter changes at all, and the run is not reported as freed
+                assert!(a_a == a_b && b_a == b_b);
+                assert!(!ha.is_dirty() && !hb.is_dirty());
+                assert!(r.is_err());
+                assert!(env.free_cluster_offset.load(Ordering::Relaxed) == hint);
+            } else {
+                assert!(r.is_ok());
+                if j >= start { assert!(a_a == a_b - 1); } else { assert!(a_a == a_b); }
+                if jb < count - d { assert!(b_a == b_b - 1); } else { assert!(b_a == b_b); }
+                assert!(ha.is_dirty() && hb.is_dirty() && env.need_flush_meta());
+                let new_hint = env.free_cluster_offset.load(Ordering::Relaxed);
+                let now = |i: usize| -> u64 {
+                    if i < d { rc(&after_a, order, start + i) } else { cnt_b(&hb.value().kwrite(), i - d) }
+                };
+                let first_free: Option<u64> = if now(0) == 0 {
+                    Some(host)
+                } else if count > 1 && now(1) == 0 {
+                    Some(host + cs)
+                } else if count > 2 && now(2) == 0 {
+                    Some(host + 2 * cs)
+                } else {
+                    None
+                };
+                match first_free {
+                    Some(f) => assert!(new_hint == core::cmp::min(hint, f)),
+                    None => assert!(new_hint == hint),
+                }
+            }
+            // witness: the end is reached (and, when loading works, with a counter of the SECOND slice dropped)
+            kani::cover!(fail || (jb == 0 && b_a + 1 == b_b && j == entries - 1 && a_a + 1 == a_b));
+            core::mem::forget(r);
+            core::mem::forget(env);
+        }
+    };
+}
+
+// @harness c08_free_across_slices_d1
+// @props C08 C03 C18 C17
+// @tier quick
+// @cost 60
+// @timeout 1500
+// @needs A0
+// @desc whole free_clusters on a run that STARTS in one refcount slice and ENDS in the next one (outer loop taken twice): every cluster of the run loses exactly one reference in the slice that holds its counter -- the tail of the first slice and the head of the second --, no other counter of either slice changes, both slices are marked dirty, need_flush is set, the hint becomes min(old hint, first cluster of the run whose count reached 0); and when a slice cannot be loaded the call either returns the error or skips ahead, never touches a counter outside the run and never drops a reference twice
+// @bounds 64 KiB clusters, 16-bit refcounts, two adjacent real 512-byte slices (256 counters each) with arbitrary counters in the last 4 entries of the first and the first 4 of the second; runs of 3 clusters starting 1 (_d1) or 2 (_d2) entries before the slice boundary (the _fail instance: 2 clusters, 1 entry before); any old hint; slice load succeeds (the _fail instance: fails)
+// @assume get_refblock shimmed (returns the slice whose key the cluster has, or fails); caller holds a reference to every cluster of the run
+// @funcs Qcow2Dev::free_clusters HostCluster::{rb_slice_index,rb_slice_host_end,rb_slice_key,rt_index} RefBlock::decrement RefBlock::get
+// @stub alloc::fmt::format -> String::new()
+free_across!(c08_free_across_slices_d1, 1, 3, false);
+
+// @harness c08_free_across_slices_d2
+// @props C08 C03 C18 C17
+// @tier quick
+// @cost 60
+// @timeout 1500
+// @needs A0
+// @desc as c08_free_across_slices_d1 with the run starting two entries before the slice boundary (count 3)
+// @bounds 64 KiB clusters, 16-bit refcounts, two adjacent real 512-byte slices (256 counters each) with arbitrary counters in the last 4 entries of the first and the first 4 of the second; runs of 3 clusters starting 1 (_d1) or 2 (_d2) entries before the slice boundary (the _fail instance: 2 clusters, 1 entry before); any old hint; slice load succeeds (the _fail instance: fails)
+// @assume get_refblock shimmed (returns the slice whose key the cluster has, or fails); caller holds a reference to every cluster of the run
+// @funcs Qcow2Dev::free_clusters HostCluster::{rb_slice_index,rb_slice_host_end,rb_slice_key,rt_index} RefBlock::decrement RefBlock::get
+// @stub alloc::fmt::format -> String::new()
+free_across!(c08_free_across_slices_d2, 2, 3, false);
+
+// @harness c08_free_across_slices_fail
+// @props C08 C03 C18 C17
+// @tier quick
+// @cost 60
+// @timeout 1500
+// @needs A0
+// @desc whole free_clusters on a run crossing a slice boundary when NO refcount slice can be loaded: the error is returned, no counter of either slice changes, neither slice is marked dirty and the hint does not move (nothing is reported freed that was not)
+// @bounds 64 KiB clusters, 16-bit refcounts, two adjacent real 512-byte slices (256 counters each) with arbitrary counters in the last 4 entries of the first and the first 4 of the second; runs of 3 clusters starting 1 (_d1) or 2 (_d2) entries before the slice boundary (the _fail instance: 2 clusters, 1 entry before); any old hint; slice load succeeds (the _fail instance: fails)
+// @assume get_refblock shimmed (returns the slice whose key the cluster has, or fails); caller holds a reference to every cluster of the run
+// @funcs Qcow2Dev::free_clusters HostCluster::{rb_slice_index,rb_slice_host_end,rb_slice_key,rt_index} RefBlock::decrement RefBlock::get
+// @stub alloc::fmt::format -> String::new()
+free_across!(c08_free_across_slices_fail, 1, 2, true);
